@@ -381,7 +381,13 @@ func vfC08Run(c vfC08Case, ctx *vfCtx) *vfViolation {
 				continue
 			}
 			id := addIDs[op.Ref]
-			if err := st.Remove(id); err == nil {
+			_, wasLive := live[id]
+			inActive := vfStoreActiveHas(st, id)
+			err := st.Remove(id)
+			// not a clause of C08 (which only says what happens "until it is removed"), but the evidence
+			// shows whether removals are really exercised
+			ctx.ClassIf(err != nil && wasLive && inActive, "remove_refused_although_live_in_the_active_memtable")
+			if err == nil {
 				if _, ok := live[id]; !ok {
 					return fail("op %d: Remove(%d) of an already removed document succeeded", i, id)
 				}
